@@ -235,7 +235,7 @@ Fixpoint run (fuel : nat) (c : cfg) (p : proc) (s : st) : res :=
         (if hk m =? 1 then Ok s else go PCheckHalt s)%nat >>= fun s1 =>
         let s2 := set_scnt (scnt s1 + 1) s1 in
         let s3 := enqueue c (next_hop c (mdest m)) m s2 in
-        if inprq s3 then Ok s3 else go PFlushToCap s3
+        go PFlushToCap s3
     | PMcast [] m => Ok s
     | PMcast (d :: ds) m =>
         go (PAsync {| uid := uid m; mdest := d; stage := 0; hk := hk m; len := len m; extra := extra m |}) s >>= go (PMcast ds m)
@@ -245,7 +245,7 @@ Fixpoint run (fuel : nat) (c : cfg) (p : proc) (s : st) : res :=
     | PBcast m =>
         go PCheckHalt s >>= fun s1 =>
         go (PQueueMany (locals_of c) m) s1 >>= fun s2 =>
-        if inprq s2 then Ok s2 else go PFlushToCap s2
+        go PFlushToCap s2
 
     (* ---------------- buffers ---------------- *)
     | PCheckHalt =>
